@@ -116,3 +116,26 @@ Print Assumptions pds_asis_depth2.
 Theorem pds_asis_subset : pds_asis_subset_stmt.
 Proof. exact C17.Proofs2.pds_asis_subset. Qed.
 Print Assumptions pds_asis_subset.
+
+(* ---- tie (T): the local predicates of /repo, translated on every run into Gen/Gen_Preds.v by translator/predicates.py ----
+   pst g a b = the six marks between a and b.  Statements and the complete case analyses: Tie/Preds_C17.v. *)
+From PG Require Import C03.PState Gen.Gen_Preds Tie.PredsProofs Tie.Preds_C17.
+
+(* is_definite_collider and the triple test of pds (is_def_collider or is_triangle), as translated from the source, ARE
+   collider3 / triple_ok of the model -- every graph whose pairs are in states a PAG can hold (pag_pairs: the invariant of
+   C03), every triple; complete case analysis over 18 x 18 (x 18) pair states *)
+Theorem repo_pred_pds : repo_pred_pds_stmt.
+Proof. exact Tie.Preds_C17.repo_pred_pds. Qed.
+Print Assumptions repo_pred_pds.
+
+(* hence, on such graphs, the step of the model search and of the order-faithful as-is search is a filter by the generated test *)
+Theorem repo_pred_pds_next : repo_pred_pds_next_stmt.
+Proof. exact Tie.Preds_C17.repo_pred_pds_next. Qed.
+Print Assumptions repo_pred_pds_next.
+
+(* the translator's own evaluation of each predicate (the table compared cell by cell with the real code on every run)
+   equals the printed Gallina function on the enumeration *)
+Theorem repo_pred_cells_C17 :
+  gen_is_definite_collider_enum = gen_is_definite_collider_cells /\ gen_pds_triple_enum = gen_pds_triple_cells.
+Proof. exact Tie.Preds_C17.cells_C17. Qed.
+Print Assumptions repo_pred_cells_C17.
